@@ -28,7 +28,7 @@ def run(ctx):
     jobs += [('shd_%s_%s' % (tag, a[0]), src, a, 2, 200, False, 300000) for tag, src, a in gen_special.shared_defeat_programs()]
     jobs += [('tex_%s_%s' % (tag, a[0]), src, a, 2, 200, False, 300000) for tag, src, a in gen_special.try_exit_programs()]
     jobs += [('%s_%s' % (tag, a[0]), src, a, 2, 200, False, 300000) for tag, src, a in gen_special.preempt_programs()]
-    tally, bad, res = suites.differential(ctx, jobs, None, kinds_bad=('HALT',), label='checked')
+    tally, bad, res = suites.differential(ctx, jobs, None, kinds_bad=('HALT',), label='checked', must_compile_prefixes=('shd_', 'tex_', 'pre_'))
     # unchecked builds of the fault-free ones
     clean = [j for j in jobs if j[0] in res and 'vm' in res[j[0]] and res[j[0]]['vm'].outcome == 'terminal'
              and res[j[0]]['vm'].flags[-1:] == ['win'] and not any(f in res[j[0]]['vm'].flags for f in
